@@ -158,6 +158,35 @@ def parse_enums(path):
     return out
 
 
+def parse_dispatch(repo):
+    """`SupportedMessage::decode_by_object_id`: object id -> structure, every arm must be of the regular form"""
+    t = norm(open(f"{repo}/lib/src/core/supported_message.rs").read())
+    body = fn_body(t, "decode_by_object_id")
+    mm = re.search(r"let decoded_message = match object_id \{", body)
+    if not mm:
+        raise CannotRead("decode_by_object_id: no match on object_id")
+    arms = body_of(body, mm.end() - 1)
+    pat = r"ObjectId::(\w+)_Encoding_DefaultBinary => \{ (\w+)::decode\(stream, decoding_options\)\?\.into\(\) \}"
+    table = []
+    for am in re.finditer(pat, arms):
+        if am.group(1) != am.group(2):
+            raise CannotRead(f"decode_by_object_id: id {am.group(1)} decodes {am.group(2)}")
+        table.append(am.group(1))
+    rest = re.sub(pat, "", arms).strip()
+    if not re.fullmatch(r"_ => \{ debug!\([^;]*\); SupportedMessage::Invalid\(object_id\) \}", rest):
+        raise CannotRead("decode_by_object_id: unparsed arms %r" % rest[:200])
+    ids = norm(open(f"{repo}/lib/src/types/node_ids.rs").read())
+    em = re.search(r"pub enum ObjectId \{", ids)
+    ebody = body_of(ids, em.end() - 1)
+    values = {m.group(1): int(m.group(2)) for m in re.finditer(r"(\w+) ?= ?(\d+) ?,", ebody + ",")}
+    tm = re.search(r"impl TryFrom<u32> for ObjectId \{", ids)
+    tbody = body_of(ids, tm.end() - 1)
+    accepted = sorted(int(v) for v in re.findall(r"(\d+) => Ok\(ObjectId::\w+\)", tbody))
+    if sorted(values.values()) != accepted:
+        raise CannotRead("ObjectId: TryFrom<u32> does not accept exactly the declared discriminants")
+    return [(values[n + "_Encoding_DefaultBinary"], n) for n in table], accepted
+
+
 # the two hand-written headers: schema given here, guarded by a fingerprint of their codec impl
 HAND = {
     "RequestHeader": ("request_header.rs",
@@ -209,6 +238,11 @@ def main():
     except Exception as e:  # noqa
         errors.append(f"enums.rs: {e}")
         enums = {}
+    try:
+        dispatch, object_ids = parse_dispatch(repo)
+    except (CannotRead, KeyError) as e:
+        errors.append(f"supported_message.rs: {e}")
+        dispatch, object_ids = [], []
     fp = {}
     for name, (fname, fields) in HAND.items():
         fp[name] = hand_fingerprint(repo, fname, name)
@@ -347,6 +381,19 @@ def main():
                         for n, e in sorted(enums.items()) if e["kind"] == "enum"))
     L.append("]")
     L.append("")
+    L.append("/-- `SupportedMessage::decode_by_object_id`: object id -> schema of the structure it decodes -/")
+    L.append("def dispatchTable : List (Nat × Ty) := [")
+    L.append(",\n".join(f"  ({i}, t{n})" for i, n in dispatch))
+    L.append("]")
+    L.append("")
+    L.append("/-- … and the structure names, for the driver -/")
+    L.append("def dispatchNames : List (Nat × String) := [")
+    L.append(",\n".join(f'  ({i}, "{n}")' for i, n in dispatch))
+    L.append("]")
+    L.append("")
+    L.append("/-- every discriminant of `ObjectId` (= what `ObjectId::try_from(u32)` accepts) -/")
+    L.append("def objectIds : List Nat := [" + ", ".join(str(i) for i in object_ids) + "]")
+    L.append("")
     L.append("end OpcuaVerif.Enc.Gen")
     changed = write_if_changed(f"{root}/lean/OpcuaVerif/Generated/Schemas.lean", "\n".join(L) + "\n")
 
@@ -388,12 +435,21 @@ def main():
     R.append("        _ => return None,")
     R.append("    })")
     R.append("}")
+    R.append("")
+    R.append("/// object ids dispatched by `SupportedMessage::decode_by_object_id`, with the structure they decode")
+    R.append("pub static DISPATCHED: &[(u32, &str)] = &[" + ", ".join(f'({i}, "{n}")' for i, n in dispatch) + "];")
     write_if_changed(f"{root}/harness/src/enc/dispatch.rs", "\n".join(R) + "\n")
 
     n_fields = sum(len(structs[n]["fields"]) for n in order)
     n_enum = sum(1 for e in enums.values() if e["kind"] == "enum")
     n_flags = sum(1 for e in enums.values() if e["kind"] == "flags")
-    summary = f"structs={len(order)} fields={n_fields} enums={n_enum} flags={n_flags} fp_RequestHeader={fp['RequestHeader']} fp_ResponseHeader={fp['ResponseHeader']}"
+    for i, n in dispatch:
+        if n not in structs:
+            errors.append(f"supported_message.rs: dispatched structure {n} has no schema")
+    if errors:
+        print("translator cannot read the source:\n  " + "\n  ".join(errors))
+        return 1
+    summary = f"structs={len(order)} fields={n_fields} enums={n_enum} flags={n_flags} dispatched={len(dispatch)} object_ids={len(object_ids)} fp_RequestHeader={fp['RequestHeader']} fp_ResponseHeader={fp['ResponseHeader']}"
     # self-test against the committed expected summary
     if exp:
         want = {k: v for k, v in exp.items()}
